@@ -18,49 +18,41 @@ Proof. unfold wf_al. intros -> ->. auto. Qed.
 Lemma wf_al_rest s s' : same_rest s s' -> wf_al s' -> wf_al s.
 Proof. intros (_&_&_&_&_&_&_&_&?&?&_). eauto using wf_al_same. Qed.
 
-Definition RT (ex : bool) (P : state -> Prop) (F : state -> state) : Prop :=
-  forall s, wf_al s -> P s ->
-    exists E, journal (F s) = journal s ++ E /\ sim ex (undo_list (rev E) (F s)) s /\
-              wf_al (F s) /\ ctl_same (F s) s /\ p002 (F s) = p002 s /\ token (F s) = token s.
+(* journal entries a guarded program may append: self-destruct entries only in the numeric reading
+   ([ex = false]), touch entries only when [tch] *)
+Definition eok (ex tch : bool) (e : entry) : Prop :=
+  match e with ESuicide _ _ _ => ex = false | ETouch _ _ _ => tch = true | _ => True end.
 
-Ltac rt_split := split; [|split; [|split; [|split; [|split]]]].
+(* [RTp s s']: s' was reached from s by appending journal entries E whose undo leads back to a state
+   equivalent to s *)
+Definition RTp (ex tch : bool) (s s' : state) : Prop :=
+  exists E, journal s' = journal s ++ E /\ sim ex (undo_list (rev E) s') s /\
+            wf_al s' /\ ctl_same s' s /\ p002 s' = p002 s /\ token s' = token s /\ Forall (eok ex tch) E.
 
-Lemma rt_weaken ex (P Q : state -> Prop) (F : state -> state) : (forall s, Q s -> P s) -> RT ex P F -> RT ex Q F.
-Proof. intros H HF s Hw Hq. apply HF; auto. Qed.
+Ltac rt_split := split; [|split; [|split; [|split; [|split; [|split]]]]].
 
-Lemma rt_ext ex (P : state -> Prop) (F G : state -> state) : (forall s, P s -> F s = G s) -> RT ex P F -> RT ex P G.
-Proof. intros H HF s Hw Hp. rewrite <- (H s Hp). apply HF; auto. Qed.
-
-Lemma rt_id ex (P : state -> Prop) : RT ex P (fun s => s).
+Lemma rtp_refl ex tch s : wf_al s -> RTp ex tch s s.
 Proof.
-  intros s Hw _. exists []. rewrite app_nil_r. rt_split; auto. apply sim_refl. split; reflexivity.
+  intros Hw. exists []. rewrite app_nil_r. rt_split; auto. apply sim_refl. split; reflexivity.
 Qed.
 
-(* sequential composition; the second transformer may depend on the state the first one started from *)
-Lemma rt_comp ex (P : state -> Prop) (Q : state -> state -> Prop) F (G : state -> state -> state) :
-  RT ex P F -> (forall s0, RT ex (Q s0) (G s0)) -> (forall s, wf_al s -> P s -> Q s (F s)) ->
-  RT ex P (fun s => G s (F s)).
+Lemma rtp_trans ex tch s s1 s2 : RTp ex tch s s1 -> RTp ex tch s1 s2 -> RTp ex tch s s2.
 Proof.
-  intros HF HG HPQ s Hw Hp.
-  destruct (HF s Hw Hp) as (E1&HJ1&HS1&Hw1&[Hr1 Hn1]&Hp1&Ht1).
-  destruct (HG s (F s) Hw1 (HPQ s Hw Hp)) as (E2&HJ2&HS2&Hw2&[Hr2 Hn2]&Hp2&Ht2).
-  exists (E1 ++ E2). split; [|split; [|split; [exact Hw2|split; [split; congruence|split; congruence]]]].
+  intros (E1&HJ1&HS1&Hw1&[Hr1 Hn1]&Hp1&Ht1&HK1) (E2&HJ2&HS2&Hw2&[Hr2 Hn2]&Hp2&Ht2&HK2).
+  exists (E1 ++ E2). rt_split; try congruence; auto.
   - rewrite HJ2, HJ1, app_assoc. reflexivity.
   - rewrite rev_app_distr, undo_list_app.
     eapply sim_trans; [apply undo_list_cong, HS2 | exact HS1].
+  - split; congruence.
+  - apply Forall_app; auto.
 Qed.
 
-Lemma rt_comp' ex (P Q : state -> Prop) (F G : state -> state) :
-  RT ex P F -> RT ex Q G -> (forall s, wf_al s -> P s -> Q (F s)) -> RT ex P (fun s => G (F s)).
-Proof. intros HF HG H. apply (rt_comp ex P (fun _ => Q) F (fun _ => G)); auto. Qed.
-
-(* transformers that append nothing and only touch the object table in an invisible way *)
-Lemma rt_silent ex (P : state -> Prop) (F : state -> state) :
-  (forall s, P s -> journal (F s) = journal s /\ same_rest (F s) s /\ ctl_same (F s) s /\
-                    forall b, orel ex (token s) (codes s) b (look (F s) b) (look s b)) ->
-  RT ex P F.
+(* steps that append nothing and only touch the object table in an invisible way *)
+Lemma rtp_silent ex tch s s' :
+  wf_al s -> journal s' = journal s -> same_rest s' s -> ctl_same s' s ->
+  (forall b, orel ex (token s) (codes s) b (look s' b) (look s b)) -> RTp ex tch s s'.
 Proof.
-  intros H s Hw Hp. destruct (H s Hp) as (HJ&HR&HC&HO). exists []. rewrite app_nil_r. cbn.
+  intros Hw HJ HR HC HO. exists []. rewrite app_nil_r. cbn.
   rt_split; auto; try apply HR.
   - apply sim_of_rest; auto. destruct HR as (_&->&->&_). exact HO.
   - eapply wf_al_rest; eauto.
@@ -101,19 +93,17 @@ Lemma loaded_settled' a s : loaded a s -> settled s a.
 Proof. intros [o H]. eapply loaded_settled, H. Qed.
 
 (* ---------- getAccountObject ---------- *)
-Lemma rt_ensure ex c a : RT ex (fun _ => True) (ensure c a).
+Lemma rtp_ensure ex tch c a s : wf_al s -> RTp ex tch s (ensure c a s).
 Proof.
-  intros s Hw _. unfold ensure.
-  destruct (objs s !! a) as [o|] eqn:Ho.
-  { exists []. rewrite app_nil_r. rt_split; auto. apply sim_refl. split; reflexivity. }
+  intros Hw. unfold ensure.
+  destruct (objs s !! a) as [o|] eqn:Ho; [apply rtp_refl, Hw|].
   destruct (trie s !! a) as [ac|] eqn:Ht.
   { exists []. rewrite app_nil_r. cbn. rt_split; auto; [|split; reflexivity].
     pose proof (sim_ensure_false ex a s) as H. unfold ensure in H. rewrite Ho, Ht in H. exact H. }
-  destruct c.
-  - exists [ECreate a]. cbn. rt_split; auto; [|split; reflexivity].
-    split; try reflexivity.
-    intros b. unfold look. cbn. rewrite delete_insert by assumption. apply orel_refl.
-  - exists []. rewrite app_nil_r. rt_split; auto. apply sim_refl. split; reflexivity.
+  destruct c; [|apply rtp_refl, Hw].
+  exists [ECreate a]. cbn. rt_split; auto; [|split; reflexivity|repeat constructor].
+  split; try reflexivity.
+  intros b. unfold look. cbn. rewrite delete_insert by assumption. apply orel_refl.
 Qed.
 
 (* ---------- reads that fill caches ---------- *)
@@ -166,13 +156,13 @@ Proof.
   rewrite (upd_const_insert _ _ _ _ Ho). reflexivity.
 Qed.
 
-Lemma rt_getdata ex a k : RT ex (fun _ => True) (fun s => fst (s_getdata a k s)).
+Lemma rtp_getdata ex tch a k s : wf_al s -> RTp ex tch s (fst (s_getdata a k s)).
 Proof.
-  apply rt_silent. intros s _. rewrite s_getdata_eq. destruct (objs s !! a) as [o|] eqn:Ho; cbn.
-  - repeat split. intros b. rewrite look_upd by (eapply loaded_settled; eauto).
-    destruct (decide (b = a)) as [->|]; [|apply orel_refl].
-    unfold look. rewrite Ho. cbn. apply oeq_getdata.
-  - repeat split. intros b. apply orel_refl.
+  intros Hw. rewrite s_getdata_eq. destruct (objs s !! a) as [o|] eqn:Ho; cbn; [|apply rtp_refl, Hw].
+  apply rtp_silent; auto; try (repeat split; fail).
+  intros b. rewrite look_upd by (eapply loaded_settled; eauto).
+  destruct (decide (b = a)) as [->|]; [|apply orel_refl].
+  unfold look. rewrite Ho. cbn. apply oeq_getdata.
 Qed.
 
 Lemma loaded_getdata b a k s : loaded b s -> loaded b (fst (s_getdata a k s)).
@@ -195,4 +185,104 @@ Proof.
   split; [reflexivity|]. exists (o <| o_code := codes s !! o_hash o |>). split.
   - apply (upd_const_insert _ _ _ _ Ho).
   - repeat split. simpl. rewrite Hh. destruct (codes s !! o_hash o); reflexivity.
+Qed.
+
+Lemma rtp_loadcode ex tch a s : wf_al s -> RTp ex tch s (fst (s_loadcode a s)).
+Proof.
+  intros Hw. destruct (objs s !! a) as [o|] eqn:Ho.
+  - destruct (s_loadcode_spec a s o Ho) as (_&o'&->&Hh&Hn&Hs&Hd&Hc).
+    apply rtp_silent; auto; try (repeat split; fail).
+    intros b. rewrite look_upd by (eapply loaded_settled; eauto).
+    destruct (decide (b = a)) as [->|]; [|apply orel_refl].
+    unfold look. rewrite Ho. cbn. split; auto. intros k. rewrite Hd. apply veq_refl.
+  - unfold s_loadcode. rewrite Ho. apply rtp_refl, Hw.
+Qed.
+
+Lemma loaded_loadcode b a s : loaded b s -> loaded b (fst (s_loadcode a s)).
+Proof.
+  intros H. destruct (objs s !! a) as [o|] eqn:Ho.
+  - destruct (s_loadcode_spec a s o Ho) as (_&o'&->&_). apply loaded_upd, H.
+  - unfold s_loadcode. rewrite Ho. exact H.
+Qed.
+
+(* ---------- the generic journalled mutation of one object ---------- *)
+Lemma objs_upd_same a f s o : objs s !! a = Some o -> objs (upd a f s) !! a = Some (f o).
+Proof. intros H. unfold upd. cbn. rewrite lookup_alter, H. reflexivity. Qed.
+
+Lemma rtp_mut ex tch a f g e s o :
+  wf_al s -> objs s !! a = Some o ->
+  (forall s', undo e s' = mark_dirty a (upd a g (ensure false a s'))) ->
+  omorph g -> oeq ex (token s) (codes s) a (g (f o)) o -> eok ex tch e ->
+  RTp ex tch s (mark_dirty a (upd a f (push e s))).
+Proof.
+  intros Hw Ho Hu Hg Hgf He.
+  set (Y := upd a f (push e s)). set (X := mark_dirty a Y).
+  assert (HlY : loaded a Y) by (apply loaded_upd; exists o; exact Ho).
+  assert (HlX : loaded a X) by (apply loaded_mark, HlY).
+  assert (HR : same_rest X s).
+  { eapply same_rest_trans; [apply same_rest_mark|]. eapply same_rest_trans; [apply same_rest_upd|]. apply same_rest_push. }
+  exists [e]. rt_split.
+  - unfold X. rewrite journal_mark. reflexivity.
+  - cbn. rewrite Hu. rewrite (ensure_loaded' false a X HlX).
+    eapply sim_trans; [apply sim_mark|].
+    eapply sim_trans; [apply (sim_upd_cong ex a g X Y Hg (sim_mark ex a Y)); auto using loaded_settled'|].
+    unfold Y. rewrite upd_upd.
+    eapply sim_trans; [|apply sim_push].
+    apply sim_upd_id; [eapply loaded_settled; exact Ho|].
+    intros o'. unfold look. cbn. rewrite Ho. intros [= <-]. exact Hgf.
+  - eapply wf_al_rest; eauto.
+  - unfold X. destruct (ctl_mark a Y) as [H1 H2]. split; [rewrite H1|rewrite H2]; reflexivity.
+  - apply HR.
+  - apply HR.
+  - repeat constructor. exact He.
+Qed.
+
+(* ---------- SetData ---------- *)
+Lemma rtp_setdata ex tch a k v s : wf_al s -> loaded a s -> RTp ex tch s (s_setdata a k v s).
+Proof.
+  intros Hw [o Ho]. unfold s_setdata.
+  pose proof (rtp_getdata ex tch a k s Hw) as H1. rewrite s_getdata_eq in *. rewrite Ho in *. cbn [fst] in H1.
+  set (o1 := fst (o_getdata k o)) in *. set (s1 := upd a (fun _ => o1) s) in *.
+  destruct (bytes_eqb v (data_of o k)); [exact H1|].
+  eapply rtp_trans; [exact H1|].
+  assert (Hw1 : wf_al s1) by (eapply wf_al_rest; [apply same_rest_upd | exact Hw]).
+  apply (rtp_mut ex tch a (f_data k v) (f_data k (data_of o k)) (EStorage a k (data_of o k)) s1 o1); auto.
+  - apply (objs_upd_same a (fun _ => o1) s o Ho).
+  - apply omorph_data.
+  - destruct (o_getdata_spec k o) as (_&Hd&_). split; try reflexivity.
+    intros k'. rewrite !data_of_f_data. destruct (decide (k' = k)) as [->|]; [|apply veq_refl].
+    fold o1 in Hd. rewrite Hd. apply veq_refl.
+  - exact I.
+Qed.
+
+Lemma loaded_setdata b a k v s : loaded b s -> loaded b (s_setdata a k v s).
+Proof.
+  intros H. unfold s_setdata. pose proof (loaded_getdata b a k s H) as H1.
+  destruct (s_getdata a k s) as [s1 pre]. cbn [fst] in H1.
+  destruct (bytes_eqb v pre); [exact H1|]. unfold s_setdata_raw. apply loaded_mark, loaded_upd. exact H1.
+Qed.
+
+(* ---------- SetNonce / IncreaseNonce ---------- *)
+Lemma rtp_nonce ex tch a n s o :
+  wf_al s -> objs s !! a = Some o -> RTp ex tch s (s_setnonce_raw a n (push (ENonce a (o_nonce o)) s)).
+Proof.
+  intros Hw Ho. rewrite s_setnonce_raw_eq.
+  apply (rtp_mut ex tch a (f_nonce n) (f_nonce (o_nonce o)) _ s o); auto.
+  - apply omorph_nonce.
+  - split; try reflexivity. intros k. apply veq_refl.
+  - exact I.
+Qed.
+
+(* ---------- SetCode ---------- *)
+Lemma rtp_code ex tch a h c s o :
+  wf_al s -> objs s !! a = Some o ->
+  RTp ex tch s (s_setcode_raw a h c (push (ECode a (o_hash o) (code_of (codes s) o)) s)).
+Proof.
+  intros Hw Ho. rewrite s_setcode_raw_eq.
+  apply (rtp_mut ex tch a (f_code h c) (f_code (o_hash o) (code_of (codes s) o)) _ s o); auto.
+  - apply omorph_code.
+  - split; try reflexivity; [|intros k; apply veq_refl].
+    unfold code_of at 1. cbn. destruct (code_of (codes s) o) eqn:E; [reflexivity|].
+    unfold code_of in E. destruct (o_code o); [discriminate|]. exact E.
+  - exact I.
 Qed.
